@@ -377,14 +377,23 @@ class Tensor:
             if node not in visited_nodes:
                 visited_nodes.add(node)
                 for child in node._children:
-                    if child.requires_grad and child._grad is None:
+                    # leaves accumulate across calls; intermediate results start every call from zero
+                    if child.requires_grad and (child._grad is None or not child.is_leaf):
                         child.zero_()
                     visit_node(child)
                 ordered_nodes.append(node)
         visit_node(self)
 
         # Go one tensor at a time and apply the chain rule to get its gradient
-        self.grad = grad
+        if not self.matches_shape(grad):
+            raise RuntimeError(f"Attempt to assign grad ({grad.shape}) to  a Tensor ({self.shape}) that has a different shape")
+        if self.is_leaf:
+            # a leaf used as root accumulates like any other leaf
+            if self._grad is None: self.zero_()
+            self._grad += grad.data
+        else:
+            # private copy (in this tensor's dtype): the caller's gradient is never aliased
+            self._grad = np.array(grad.data, dtype=self.dtype)
         for i, node in enumerate(reversed(ordered_nodes)):
             if node.grad_fn is not None:
                 #print(node.grad_fn)
